@@ -295,11 +295,15 @@ func lenOrNil(v reflect.Value) string {
 
 var warmed = map[protoreflect.FullName]bool{}
 
-func warmDescriptor(md protoreflect.MessageDescriptor, depth int) {
-	if warmed[md.FullName()] || depth > 8 {
+func warmDescriptor(md protoreflect.MessageDescriptor, depth int, info bool) {
+	key := md.FullName()
+	if info {
+		key += "+info"
+	}
+	if warmed[key] || depth > 8 {
 		return
 	}
-	warmed[md.FullName()] = true
+	warmed[key] = true
 	fds := md.Fields()
 	for i := 0; i < fds.Len(); i++ {
 		fd := fds.Get(i)
@@ -312,16 +316,23 @@ func warmDescriptor(md protoreflect.MessageDescriptor, depth int) {
 		if fd.IsMap() {
 			_ = fd.MapKey().Kind()
 			if fd.MapValue().Message() != nil {
-				warmDescriptor(fd.MapValue().Message(), depth+1)
+				warmDescriptor(fd.MapValue().Message(), depth+1, info)
 			}
 		} else if fd.Message() != nil {
-			warmDescriptor(fd.Message(), depth+1)
+			warmDescriptor(fd.Message(), depth+1, info)
 		}
 	}
 	_ = md.Oneofs().Len()
+	if !info {
+		return
+	}
+	// Only when a task will use struct-based reflection (MessageOf): initialise
+	// the MessageInfo now, because its initialisation holds a mutex while it
+	// calls ProtoReflect() of the nested generated types, and a task parked at
+	// a yield point in there would block the others for real. (This also runs
+	// the nested types' ProtoReflect once, so such a run is not "cold".)
 	if mt, err := protoregistry.GlobalTypes.FindMessageByName(md.FullName()); err == nil {
 		if mi, ok := mt.(*protoimpl.MessageInfo); ok {
-			// struct-based reflection of a zero value initialises the MessageInfo
 			mi.MessageOf(mi.Zero().Interface()).Range(func(protoreflect.FieldDescriptor, protoreflect.Value) bool { return true })
 		}
 	}
@@ -329,7 +340,10 @@ func warmDescriptor(md protoreflect.MessageDescriptor, depth int) {
 
 var wktWarm bool
 
-func warmUp(md protoreflect.MessageDescriptor, env *opEnv, private proto.Message) {
+// warmUp touches only protobuf-go's own lazily initialised, mutex-guarded
+// state: descriptor tables, the well-known types and (if a task needs it) the
+// struct-reflection MessageInfo.
+func warmUp(md protoreflect.MessageDescriptor, info bool) {
 	if !wktWarm {
 		wktWarm = true
 		for _, m := range []proto.Message{&anypb.Any{TypeUrl: "x"}, &timestamppb.Timestamp{Seconds: 1}, &durationpb.Duration{Seconds: 1}} {
@@ -340,7 +354,7 @@ func warmUp(md protoreflect.MessageDescriptor, env *opEnv, private proto.Message
 			proto.Equal(m, proto.Clone(m))
 		}
 	}
-	warmDescriptor(md, 0)
+	warmDescriptor(md, 0, info)
 }
 
 var quanta = []int{1, 1, 2, 3, 5, 8, 13, 30, 80, 200, 600, 2000}
@@ -354,8 +368,11 @@ func runReaders(c *simrun.Ctx) *simrun.Violation {
 	t := c.T
 	st := c.Stats
 	proto0 := corpus[t.Draw("type", len(corpus))]
-	mt := proto0.ProtoReflect().Type()
-	md := mt.Descriptor()
+	// type information comes from the registry, not from the generated type's
+	// own methods: nothing of the generated code may run before the tasks do
+	info := infoOf(proto0)
+	var mt protoreflect.MessageType = info
+	md := info.Desc
 	cfg := simval.GenCfg{MaxDepth: 1 + t.Draw("maxdepth", 3), MaxFields: 1 + t.Draw("maxfields", 8), MaxMapEntries: 2 + t.Draw("maxentries", 6), MaxListLen: 1 + t.Draw("maxlist", 4), Unknown: t.Chance("unknowns", 1, 4), AnyTargets: anyTargets()}
 	av := simval.Gen(t, md, cfg)
 	canon := simval.Canon(av)
@@ -395,14 +412,19 @@ func runReaders(c *simrun.Ctx) *simrun.Violation {
 		if err != nil {
 			return nil
 		}
-		if got, err := simval.CanonStruct(m); err != nil || got != canon {
+		if got, err := simval.CanonStructDesc(m, md); err != nil || got != canon {
 			return nil
 		}
 		return m
 	}
 	shared, private, equalPeer := build(), build(), build()
 	av2 := simval.Gen(t, md, cfg)
-	unequalPeer, _ := (&simval.History{T: t}).BuildReflect(av2, mt)
+	var unequalPeer proto.Message
+	if useStruct {
+		unequalPeer, _ = (&simval.History{T: t}).BuildStruct(av2, mt)
+	} else {
+		unequalPeer, _ = (&simval.History{T: t}).BuildReflect(av2, mt)
+	}
 	if shared == nil || private == nil || equalPeer == nil || unequalPeer == nil {
 		st.Add("runs_discarded_build_mismatch", 1)
 		return nil
@@ -426,17 +448,20 @@ func runReaders(c *simrun.Ctx) *simrun.Violation {
 	if rt, err := protoregistry.GlobalTypes.FindMessageByName(md.FullName()); err == nil {
 		env.mi, _ = rt.(*protoimpl.MessageInfo)
 	}
-	env.methods = shared.ProtoReflect().ProtoMethods()
-	envSeq := *env // the sequential reference uses a Methods value of its own
-	envSeq.methods = private.ProtoReflect().ProtoMethods()
+	envSeq := *env // the sequential reference uses a Methods value of its own (fetched after the concurrent phase)
 	nTasks := 2 + t.Draw("ntasks", 5)
 	tasks := make([]*readerTask, nTasks)
 	ordBase := uint64(t.Draw("ordbase", 1<<30))
+	warmOpsAllowed := t.Chance("warm-ops", 1, 3)
 	for i := range tasks {
 		n := 1 + t.Draw("nops", 6)
 		rt := &readerTask{}
 		for j := 0; j < n; j++ {
-			rt.prog = append(rt.prog, opInst{Kind: t.Draw("op", numOps), Ord: simhook.Mix(ordBase, uint64(i), uint64(j)), Mode: t.Draw("ordmode", simhook.OrdModes)})
+			kind := t.Draw("op", numOps)
+			if !warmOpsAllowed && (kind == opSlowReflect || kind == opSharedMethodsSize || kind == opSharedMethodsMarshal) {
+				kind = opSize // these need state set up before the tasks start; most runs stay cold
+			}
+			rt.prog = append(rt.prog, opInst{Kind: kind, Ord: simhook.Mix(ordBase, uint64(i), uint64(j)), Mode: t.Draw("ordmode", simhook.OrdModes)})
 		}
 		rt.results = make([]string, n)
 		tasks[i] = rt
@@ -447,7 +472,28 @@ func runReaders(c *simrun.Ctx) *simrun.Violation {
 	// of protobuf-go's initialisation locks. Nothing of the generated code's
 	// read paths is run here: their first use happens inside the concurrent
 	// phase, and the sequential reference is computed afterwards.
-	warmUp(md, env, private)
+	needMethods, needInfo := false, false
+	for _, rt := range tasks {
+		for _, op := range rt.prog {
+			switch op.Kind {
+			case opSharedMethodsSize, opSharedMethodsMarshal:
+				needMethods = true
+			case opSlowReflect:
+				needInfo = true
+			}
+		}
+	}
+	if needMethods {
+		env.methods = shared.ProtoReflect().ProtoMethods()
+	}
+	warmUp(md, needInfo)
+	// a run is "cold" when nothing of the generated code has run on these
+	// messages (or, for nested types, at all in this process) before the tasks:
+	// built as struct literals, no unknown fields to install, no Methods value
+	// fetched, no MessageInfo initialised
+	if useStruct && !needMethods && !needInfo && !emptyUnknown && !strings.Contains(canon, "u:") && !strings.Contains(simval.Canon(av2), "u:") {
+		st.Add("runs_cold_no_generated_code_before_the_tasks", 1)
+	}
 	newRaceReports() // drain anything written before the concurrent phase
 	c.Tracef("type=%s tasks=%d value=%s", md.FullName(), nTasks, clip(canon, 500))
 
@@ -493,6 +539,9 @@ func runReaders(c *simrun.Ctx) *simrun.Violation {
 	c.Result = sched.SeqHash
 	races := newRaceReports()
 	// sequential reader on a private copy with the same order draws
+	if needMethods {
+		envSeq.methods = private.ProtoReflect().ProtoMethods()
+	}
 	expected := make([][]string, nTasks)
 	for i, rt := range tasks {
 		expected[i] = make([]string, len(rt.prog))
